@@ -160,7 +160,7 @@ class DomainExit(Exception):
     pass
 
 
-def build_raw(K, names, sv, with_null, with_boot, with_init=True, dtype=object):
+def build_raw(K, names, sv, with_null, with_boot, with_init=True, dtype=object, with_bounds=False):
     import biogeme.results as res
     raw = res.RawResults.__new__(res.RawResults)
     raw.modelName = 'c08'
@@ -170,7 +170,10 @@ def build_raw(K, names, sv, with_null, with_boot, with_init=True, dtype=object):
     raw.betaNames = list(names)
     raw.initLogLike = sv('init_ll') if with_init else None
     raw.nullLogLike = sv('null_ll') if with_null else None
-    raw.betas = [res.Beta(names[i], raw.betaValues[i], (None, None)) for i in range(K)]
+    # (with_bounds: the first parameter has a lower bound, so that both layouts of the parameter table -- with and without
+    # the 'Active bound' column -- are reached by a fork on |estimate - bound| <= 1e-6)
+    raw.betas = [res.Beta(names[i], raw.betaValues[i], ((sv('lb_0'), None) if (with_bounds and i == 0) else (None, None)))
+                 for i in range(K)]
     raw.logLike = sv('final_ll')
     raw.g = np.array([sv(f'g_{i}') for i in range(K)], dtype=dtype)
     H = np.empty((K, K), dtype=dtype)
@@ -183,7 +186,7 @@ def build_raw(K, names, sv, with_null, with_boot, with_init=True, dtype=object):
     raw.H, raw.bhhh = H, B
     raw.dataname = 'data'
     raw.sampleSize = sv('N')
-    raw.numberOfObservations = sv('N')
+    raw.numberOfObservations = sv('NOBS')  # panel data: observations (rows) differ from the sample size (individuals)
     raw.monte_carlo = False
     raw.numberOfDraws = 0
     raw.typesOfDraws = {}
@@ -206,11 +209,11 @@ def build_raw(K, names, sv, with_null, with_boot, with_init=True, dtype=object):
     return raw
 
 
-def scenario(K, names, with_null, with_boot, singular, sv, c=None, concrete=False):
+def scenario(K, names, with_null, with_boot, singular, sv, c=None, concrete=False, with_bounds=False):
     """returns list of (label, got, want) with want a z3 term over *raw inputs and reported lower-level values*"""
     import biogeme.results as res
     eqs = []
-    raw = build_raw(K, names, sv, with_null, with_boot, dtype=float if concrete else object)
+    raw = build_raw(K, names, sv, with_null, with_boot, dtype=float if concrete else object, with_bounds=with_bounds)
     L = lambda n: lift(sv(n))
     patches = []
     if not concrete:
@@ -329,6 +332,16 @@ def scenario(K, names, with_null, with_boot, singular, sv, c=None, concrete=Fals
         # tables
         for only_robust in (True, False):
             tab = r.get_estimated_parameters(only_robust=only_robust)
+            if with_bounds:
+                dist = lift(est[0]) - L('lb_0')
+                active = [z3.And(dist <= lift(1.0e-6), dist >= -lift(1.0e-6))] + [z3.BoolVal(False)] * (K - 1)
+                if 'Active bound' in tab.columns:
+                    for i, nm in enumerate(names):
+                        eqs.append((f'parameters table(only_robust={only_robust}): [Active bound] is 1 exactly for a parameter on its bound',
+                                    z3.If(active[i], RV(1), RV(0)), tab.loc[nm, 'Active bound']))
+                else:
+                    eqs.append((f'parameters table(only_robust={only_robust}): no [Active bound] column only when no bound is active',
+                                z3.Not(active[0]), True))
             for i, nm in enumerate(names):
                 b = d.betas[i]
                 eqs.append((f'parameters table(only_robust={only_robust}): Value of {nm}', tab.loc[nm, 'Value'], est[i]))
@@ -439,6 +452,9 @@ def items_for(tier):
                         continue
                     items.append((f'{hname}/{names[0]}/null{int(with_null)}/boot{int(with_boot)}', 2, names, with_null,
                                   with_boot, hname))
+    items.append(('well/beta_b/null1/boot0/bounds', 2, ('beta_b', 'alpha_a'), True, False, 'well'))
+    if tier == 'thorough':
+        items.append(('well/asc/null0/boot1/bounds', 2, ('asc', 'b_time'), False, True, 'well'))
     items.append(('singular', 2, ('beta_b', 'alpha_a'), False, False, 'singular'))
     if tier == 'thorough':
         items.append(('K3/boot', 3, ('beta_b', 'alpha_a', 'gamma_c'), True, True, 'K3'))
@@ -470,7 +486,7 @@ def worker(item):
         c.assume(L('null_ll') < 0)
         obs = []
         try:
-            eqs = scenario(K, names, with_null, with_boot, singular, sv, c)
+            eqs = scenario(K, names, with_null, with_boot, singular, sv, c, with_bounds=name.endswith('/bounds'))
         except symx.PathAbort:
             raise
         except Exception as e:  # noqa: BLE001
@@ -527,7 +543,7 @@ def worker(item):
                         for r_ in range(NBOOT):
                             asg[f'boot_{r_}_{i}'] = float(__import__('fractions').Fraction(BOOT[r_][i]))
                     case = dict(K=K, names=list(names), with_null=with_null, with_boot=with_boot, values=asg, label=label,
-                                singular=singular)
+                                singular=singular, with_bounds=name.endswith('/bounds'))
                     done[key] = (replay_subprocess(case), case)
                 rp, case = done[key]
                 res_.add(label, 'cex', key=key, case=case, detail=(detail or '') + ' | replay: ' + str(rp.get('detail')),
@@ -548,7 +564,7 @@ def replay_subprocess(case):
 def stress_points(K):
     """raw outcomes used for the replay besides the solver's model: well conditioned, nearly singular Hessian"""
     pts = []
-    base = {'final_ll': -80.0, 'init_ll': -120.0, 'null_ll': -150.0, 'N': 200.0, 'gradnorm': 1e-4}
+    base = {'final_ll': -80.0, 'init_ll': -120.0, 'null_ll': -150.0, 'N': 200.0, 'NOBS': 1000.0, 'gradnorm': 1e-4, 'lb_0': 0.8}
     for tag, (h00, h01, h11) in (('well', (-4.0, 1.0, -3.0)), ('tiny-eigenvalue', (-2.0, 0.0, -4e-6)),
                                 ('correlated', (-5.0, 4.0, -5.0))):
         p = dict(base)
@@ -574,7 +590,8 @@ def concrete_run(case):
         try:
             if case.get('singular') and tag != 'model':
                 continue
-            eqs = scenario(K, names, case['with_null'], case['with_boot'], bool(case.get('singular')), sv, concrete=True)
+            eqs = scenario(K, names, case['with_null'], case['with_boot'], bool(case.get('singular')), sv, concrete=True,
+                           with_bounds=bool(case.get('with_bounds')))
         except DomainExit:
             continue
         except Exception as e:  # noqa: BLE001
